@@ -361,7 +361,7 @@ def run(ctx):
     )
     # 1. the frame property on the model, and its in-place negative control
     cfg = os.path.join(ctx.work, "frame.cfg")
-    write_cfg(cfg, mode="frame", maxops=3 if not ctx.thorough else 4)
+    write_cfg(cfg, mode="frame", maxops=3)
     res = tlc.run("Frame", cfg, ctx.work, workers=16, timeout_s=1500 if ctx.thorough else 400, allow_violation=False)
     ctx.model(res, "Frame", cfg, "FrameOK / Disjoint / LinkOK / HashOK over call frames on the node store")
     cfg = os.path.join(ctx.work, "frame_neg.cfg")
